@@ -117,7 +117,8 @@ fn c34_hole_search_deep() {
 
 /// Marking the lines of an object: every line the object overlaps carries the current state afterwards, no other
 /// line mark changes, and the return value counts the lines newly marked. Quick tier: objects up to 4 lines + 1.
-fn check_mark_lines(max_size: usize) {
+/// `ref_offset`: how far the object reference lies above the object start (0, or 16 for the header-before-reference binding).
+fn check_mark_lines<VM: mmtk::vm::VMBinding>(max_size: usize, ref_offset: usize) {
     let mut buf = LineMarks(kani::any());
     let img = buf.0;
     let b = place_block(&mut buf);
@@ -125,10 +126,11 @@ fn check_mark_lines(max_size: usize) {
     kani::assume(state >= 1 && state <= Line::MAX_MARK_STATE);
     let off: usize = kani::any();
     let size: usize = kani::any();
-    kani::assume(off % 8 == 0 && off < Block::BYTES && size >= 8 && size <= max_size && off + size <= Block::BYTES);
+    // `off` is the offset of the object START within the block
+    kani::assume(off % 8 == 0 && off < Block::BYTES && size >= 8 + ref_offset && size <= max_size && off + size <= Block::BYTES);
     ctl::set_current_size(size);
-    let obj = ObjectReference::from_raw_address(addr(b + off)).unwrap();
-    let n = Line::mark_lines_for_object::<KVM0>(obj, state);
+    let obj = ObjectReference::from_raw_address(addr(b + off + ref_offset)).unwrap();
+    let n = Line::mark_lines_for_object::<VM>(obj, state);
     let first = off >> LOG_LINE;
     let last = (off + size - 1) >> LOG_LINE;
     let j: usize = kani::any();
@@ -149,6 +151,7 @@ fn check_mark_lines(max_size: usize) {
     assert!(n == newly, "C34.mark_lines.returns_number_of_newly_marked_lines");
     kani::cover!(last > first + 1, "C34.cover.object_spans_three_lines");
     kani::cover!((off + size) % Line::BYTES == 0, "C34.cover.object_ends_on_line_boundary");
+    kani::cover!(ref_offset == 0 || (off + ref_offset) >> LOG_LINE != first, "C34.cover.reference_lies_in_a_later_line_than_the_object_start");
     std::mem::forget(buf);
 }
 
@@ -156,14 +159,23 @@ fn check_mark_lines(max_size: usize) {
 #[kani::unwind(8)]
 #[kani::stub(mmtk::util::metadata::side_metadata::global_side_metadata_base_address, stub_base)]
 fn c34_mark_lines_for_object() {
-    check_mark_lines(1024);
+    check_mark_lines::<KVM0>(1024, 0);
+}
+
+/// A binding whose object reference points 16 bytes past the object start: the line holding only the header is spanned
+/// by the object and must be marked too.
+#[kani::proof]
+#[kani::unwind(8)]
+#[kani::stub(mmtk::util::metadata::side_metadata::global_side_metadata_base_address, stub_base)]
+fn c34_mark_lines_for_object_header_before_ref() {
+    check_mark_lines::<crate::vm::KVM<8, 64, 4>>(1024, 16);
 }
 
 #[kani::proof]
 #[kani::unwind(131)]
 #[kani::stub(mmtk::util::metadata::side_metadata::global_side_metadata_base_address, stub_base)]
 fn c34_mark_lines_for_object_deep() {
-    check_mark_lines(Block::BYTES);
+    check_mark_lines::<KVM0>(Block::BYTES, 0);
 }
 
 /// Block state through the side table: set_state then get_state returns the state; only the block's byte changes.
